@@ -51,6 +51,8 @@ let rec split_at_bar acc = function
   | x :: r -> split_at_bar (x :: acc) r
 
 let ma_nonempty (ma : multiasset) = List.exists (fun p -> p <> []) ma
+let show_mask (m : bool list) = "A=" ^ String.concat "" (List.map (fun b -> if b then "o" else "x") m)
+let count_true (m : bool list) = List.length (List.filter (fun b -> b) m)
 
 let handle (toks : string list) (impl : string list) : string * string =
   let c = { a = Array.of_list toks; i = 1 } in
@@ -108,7 +110,8 @@ let handle (toks : string list) (impl : string list) : string * string =
     if next c <> "C" then failwith "C";
     let caddr = p_addr c in let cd = p_dat c in
     (* the whole scenario on C05's builder model with the concrete MinAda / TxSize oracle: nothing is read off the implementation *)
-    let res = run_build_case cpb mvs mts pure (List.map (fun (coin, ma) -> (coin, ma)) ins) req caddr cd in
+    let (mask, res) = run_build_case cpb mvs mts pure (List.map (fun (coin, ma) -> (coin, ma)) ins) req caddr cd in
+    let am = show_mask mask in
     let show_ma (ma : multiasset) =
       let b = Buffer.create 64 in
       Buffer.add_string b (string_of_int (List.length ma));
@@ -116,25 +119,26 @@ let handle (toks : string list) (impl : string list) : string * string =
                   List.iter (fun (nl, q) -> Buffer.add_string b (" " ^ sn nl ^ " " ^ sn q)) p) ma;
       Buffer.contents b in
     let sum l = List.fold_left BZ.add BZ.zero l in
-    let l0 = (let i = sum (List.map (fun (c', _) -> bz_of_n c') ins) and o = sum (List.map (fun o -> bz_of_n o.o_coin) req) in
+    let accepted = List.map snd (List.filter fst (List.combine mask req)) in
+    let l0 = (let i = sum (List.map (fun (c', _) -> bz_of_n c') ins) and o = sum (List.map (fun o -> bz_of_n o.o_coin) accepted) in
               if BZ.compare i o >= 0 then BZ.sub i o else BZ.zero) in
-    let nreq = List.length req in
+    let nreq = count_true mask in
     let m = (match res with
-        | RAddOut -> "err:addout"
-        | RChangeErr -> "err:change"
+        | RAddOut -> "panic"
+        | RChangeErr -> "err:change " ^ am
         | RChangePanic -> "panic"
         | RChangeFuel -> "outoffuel"
-        | RBuild full -> if BZ.compare (bz_of_n full) (bz_of_n mts) > 0 then "toobig " ^ sn full else "err:build"
+        | RBuild full -> if BZ.compare (bz_of_n full) (bz_of_n mts) > 0 then "toobig " ^ sn full ^ " " ^ am else "err:build " ^ am
         | ROk (fee, full, outs) ->
           let b = Buffer.create 256 in
-          Buffer.add_string b (Printf.sprintf "ok %s %s %s %d %d" (BZ.to_string l0) (sn fee) (sn full) nreq (List.length outs));
+          Buffer.add_string b (Printf.sprintf "ok %s %s %s %s %d %d" am (BZ.to_string l0) (sn fee) (sn full) nreq (List.length outs));
           List.iter (fun o -> Buffer.add_string b (Printf.sprintf " %s %s %s" (sn o.o_coin) (sn (out_size o)) (sn (out_value_size o)))) outs;
           Buffer.add_string b " |";
           List.iter (fun o -> Buffer.add_string b (" " ^ show_ma o.o_ma)) (drop nreq outs);
           Buffer.contents b) in
     let v = (match impl with
         | [] -> "na"
-        | "ok" :: _ :: _ :: full :: _ :: _ :: rest ->
+        | "ok" :: _ :: _ :: _ :: full :: _ :: _ :: rest ->
           let (flat, _) = split_at_bar [] rest in
           let rec obs3 = function
             | c' :: s :: v :: r -> { ob_coin = nn c'; ob_size = nn s; ob_vsize = nn v } :: obs3 r
@@ -163,7 +167,8 @@ let handle (toks : string list) (impl : string list) : string * string =
     if next c <> "M" then failwith "M";
     let items = int_ c in let auxlen = num c in let late = (next c = "1") in
     let aux = if items > 0 then Some auxlen else None in
-    let res = run_entry_case cpb mvs mts pure ins req caddr cd cs via cols pct aux late in
+    let (mask, res) = run_entry_case cpb mvs mts pure ins req caddr cd cs via cols pct aux late in
+    let am = show_mask mask in
     let show_ma (ma : multiasset) =
       let b = Buffer.create 64 in
       Buffer.add_string b (string_of_int (List.length ma));
@@ -171,10 +176,10 @@ let handle (toks : string list) (impl : string list) : string * string =
                   List.iter (fun (nl, q) -> Buffer.add_string b (" " ^ sn nl ^ " " ^ sn q)) p) ma;
       Buffer.contents b in
     let okerr x = if x then "ok" else "err" in
-    let nreq = List.length req in
+    let nreq = count_true mask in
     let m = (match res with
-        | EAddOut -> "err:addout"
-        | EFail -> "err:change"
+        | EAddOut -> "panic"
+        | EFail -> "err:change " ^ am
         | EPanic -> "panic"
         | EFuel -> "outoffuel"
         | EDone (fee, full, b_ok, t_ok, u_ok, outs, cret, ctot) ->
@@ -184,7 +189,7 @@ let handle (toks : string list) (impl : string list) : string * string =
                              t_col_inputs = List.init ncol (fun i -> n_of_int i); t_col_return = cret; t_col_total = ctot; t_aux = aux }
             else n_of_int 0 in
           let b = Buffer.create 256 in
-          Buffer.add_string b (Printf.sprintf "ok %s F=%s B=%s T=%s U=%s L=%s %d" (sn fee) (sn full) (okerr b_ok) (okerr t_ok) (okerr u_ok) (sn len) nreq);
+          Buffer.add_string b (Printf.sprintf "ok %s %s F=%s B=%s T=%s U=%s L=%s %d" am (sn fee) (sn full) (okerr b_ok) (okerr t_ok) (okerr u_ok) (sn len) nreq);
           if not (b_ok || t_ok || u_ok) then Buffer.add_string b " none"
           else begin
             Buffer.add_string b (Printf.sprintf " %d" (List.length outs));
@@ -197,7 +202,7 @@ let handle (toks : string list) (impl : string list) : string * string =
           Buffer.contents b) in
     let v = (match impl with
         | [] -> "na"
-        | "ok" :: _fee :: f :: b :: t :: u :: l :: _nreq :: rest ->
+        | "ok" :: _mask :: _fee :: f :: b :: t :: u :: l :: _nreq :: rest ->
           let strip pre x = let n = String.length pre in String.sub x n (String.length x - n) in
           let returned = (strip "B=" b = "ok") || (strip "T=" t = "ok") || (strip "U=" u = "ok") in
           let full = (match strip "F=" f with "err" -> None | x -> Some (nn x)) in
@@ -231,19 +236,32 @@ let handle (toks : string list) (impl : string list) : string * string =
     if next c <> "F" then failwith "F";
     let fee = num c in
     let okerr x = if x then "ok" else "err" in
-    let shape v = { t_inputs = List.init nin (fun i -> n_of_int i); t_outputs = req; t_fee = fee; t_vkeys = n_of_int v; t_boots = [];
+    let (mask, r) = run_txsize_case mts (List.map (fun (c', ma) -> (c', ma)) ins) req fee in
+    let accepted = List.map snd (List.filter fst (List.combine mask req)) in
+    let shape v = { t_inputs = List.init nin (fun i -> n_of_int i); t_outputs = accepted; t_fee = fee; t_vkeys = n_of_int v; t_boots = [];
                     t_col_inputs = []; t_col_return = None; t_col_total = None; t_aux = None } in
-    let m = (match run_txsize_case mts (List.map (fun (c', ma) -> (c', ma)) ins) req fee with
-        | None -> "err:addout"
+    let m = (match r with
+        | None -> "panic"
         | Some (((full, b_ok), t_ok), u_ok) ->
           let len = if t_ok || u_ok then full_tx_size (shape 0) else n_of_int 0 in
-          Printf.sprintf "%s %s %s B=%s T=%s U=%s" (if b_ok then "ok" else "toobig") (sn full) (sn len) (okerr b_ok) (okerr t_ok) (okerr u_ok)) in
+          let b = Buffer.create 128 in
+          Buffer.add_string b (Printf.sprintf "%s %s %s %s B=%s T=%s U=%s" (if b_ok then "ok" else "toobig") (show_mask mask) (sn full) (sn len) (okerr b_ok) (okerr t_ok) (okerr u_ok));
+          if not (b_ok || t_ok || u_ok) then Buffer.add_string b " none"
+          else begin
+            Buffer.add_string b (Printf.sprintf " %d" (List.length accepted));
+            List.iter (fun o -> Buffer.add_string b (Printf.sprintf " %s %s %s" (sn o.o_coin) (sn (out_size o)) (sn (out_value_size o)))) accepted
+          end;
+          Buffer.contents b) in
     let v = (match impl with
         | [] -> "na"
-        | [_; full; len; b; t; u] ->
+        | _ :: _ :: full :: len :: b :: t :: u :: rest ->
           let strip pre x = let n = String.length pre in String.sub x n (String.length x - n) in
           let returned = (strip "B=" b = "ok") || (strip "T=" t = "ok") || (strip "U=" u = "ok") in
-          show_verdict (judge_returned cfg returned [] None (Some (nn full)) (nn len))
+          let rec obs3 = function
+            | c' :: s :: v :: r -> { ob_coin = nn c'; ob_size = nn s; ob_vsize = nn v } :: obs3 r
+            | _ -> [] in
+          let outs = (match rest with "none" :: _ -> [] | _ :: r -> obs3 r | [] -> []) in
+          show_verdict (judge_returned cfg returned outs None (Some (nn full)) (nn len))
         | _ -> "holds") in
     (m, v)
   | k -> failwith ("unknown case kind " ^ k)
